@@ -495,6 +495,20 @@ func c09DatagramEndReported(c *Ctx) {
 				lx, xLen := isLenOf(x.X)
 				ly, yLen := isLenOf(x.Y)
 				k, yConst := ConstInt(x.Y)
+				// dc.remaining(): a method of the type that returns len(buffer)
+				if hc, isCall := x.X.(*ssa.Call); isCall && !xLen {
+					if hf := hc.Call.StaticCallee(); hf != nil && InRepo(hf) && hf.Blocks != nil && len(hc.Call.Args) == 1 && hc.Call.Args[0] == ssa.Value(rd.Params[0]) {
+						if rets := Returns(hf); len(rets) == 1 && len(RetVals(rets[0])) == 1 {
+							if l2, isL := isLenOf(RetVals(rets[0])[0]); isL {
+								if i2, okI := recvFieldIdx(l2, hf); okI && i2 == bufIdx {
+									if yConst && k == 0 {
+										return (x.Op == token.EQL && pol) || (x.Op == token.LEQ && pol) || (x.Op == token.NEQ && !pol) || (x.Op == token.GTR && !pol)
+									}
+								}
+							}
+						}
+					}
+				}
 				switch {
 				case xLen && isLoadOf(lx, bufIdx) && yConst && k == 0: // len(buf) OP 0
 					return (x.Op == token.EQL && pol) || (x.Op == token.LEQ && pol) || (x.Op == token.NEQ && !pol) || (x.Op == token.GTR && !pol)
@@ -516,6 +530,24 @@ func c09DatagramEndReported(c *Ctx) {
 			nerr++
 			for _, dc := range DomConds(r) {
 				if drained(dc.V, dc.Pol, 0) {
+					ok = true
+				}
+			}
+			// `if flag || len(buffer) == 0 { return 0, io.EOF }`: every way into the block is such a test
+			if preds := r.Block().Preds; !ok && len(preds) >= 2 {
+				all := true
+				for _, pb := range preds {
+					one := false
+					for _, dc := range EdgeConds(pb, r.Block()) {
+						if drained(dc.V, dc.Pol, 0) {
+							one = true
+						}
+					}
+					if !one {
+						all = false
+					}
+				}
+				if all {
 					ok = true
 				}
 			}
